@@ -2,72 +2,70 @@ package simnode
 
 import (
 	"errors"
-	"fmt"
-	"math/big"
+	"time"
 
-	"github.com/golang/protobuf/proto"
-	txn "github.com/xuperchain/xupercore/bcs/ledger/xledger/tx"
 	pb "github.com/xuperchain/xupercore/bcs/ledger/xledger/xldgpb"
+	"github.com/xuperchain/xupercore/kernel/common/xaddress"
+	xctx "github.com/xuperchain/xupercore/kernel/common/xcontext"
+	cbase "github.com/xuperchain/xupercore/kernel/consensus/base"
+	cctx "github.com/xuperchain/xupercore/kernel/consensus/context"
+	"github.com/xuperchain/xupercore/kernel/engines/xuperos/common"
+	"github.com/xuperchain/xupercore/kernel/engines/xuperos/miner"
+	"github.com/xuperchain/xupercore/lib/timer"
 )
 
-// PackBlock is a line-by-line transcription of miner.packBlock of the xuperos engine
-// (kernel/engines/xuperos/miner/miner.go) on a bare ledger + state: timer transaction,
-// pool prefix under the size limit in the order the pool yields it, award, FormatMinerBlock.
-// All calls into xupercore are the real ones; only the 40 lines of glue are transcribed.
-func (n *Node) PackBlock(proposer *Key, ts int64) (*pb.InternalBlock, error) {
-	height := n.Ledger.GetMeta().TrunkHeight + 1
-	sizeLimit, err := n.State.MaxTxSizePerBlock()
-	if err != nil {
-		return nil, err
-	}
-	autoTx, err := n.State.GetTimerTx(height)
-	if err != nil {
-		return nil, fmt.Errorf("timer tx: %v", err)
-	}
-	if autoTx == nil {
-		return nil, errors.New("timer tx is nil (state context not initialised)")
-	}
-	if len(autoTx.TxOutputsExt) > 0 {
-		sizeLimit -= proto.Size(autoTx)
-	}
-	unconfirmed, err := n.State.GetUnconfirmedTx(false)
-	if err != nil {
-		return nil, err
-	}
-	general := make([]*pb.Transaction, 0)
-	for _, t := range unconfirmed {
-		size := proto.Size(t)
-		if size > sizeLimit {
-			break
-		}
-		sizeLimit -= size
-		general = append(general, t)
-	}
-	amount := n.Ledger.GenesisBlock.CalcAward(height)
-	if amount.Cmp(big.NewInt(0)) < 0 {
-		return nil, errors.New("negative award")
-	}
-	awardTx, err := txn.GenerateAwardTx(proposer.Address, amount.String(), []byte("award"))
-	if err != nil {
-		return nil, err
-	}
-	txList := []*pb.Transaction{awardTx}
-	if len(autoTx.TxOutputsExt) > 0 {
-		txList = append(txList, autoTx)
-	}
-	txList = append(txList, general...)
-	return n.Ledger.FormatMinerBlock(txList, []byte(proposer.Address), proposer.Priv, ts, 0, 0,
-		n.State.GetLatestBlockid(), 0, n.State.GetTotal(), nil, nil, height)
+// nullConsensus is the consensus a single-producer harness chain runs under: every block
+// matches, nothing to compute, nothing to truncate (the properties about consensus rules have
+// their own checks: C14-C16).
+type nullConsensus struct{}
+
+func (nullConsensus) CompeteMaster(height int64) (bool, bool, error) { return true, false, nil }
+func (nullConsensus) CheckMinerMatch(ctx xctx.XContext, block cctx.BlockInterface) (bool, error) {
+	return true, nil
+}
+func (nullConsensus) ProcessBeforeMiner(timestamp int64) ([]byte, []byte, error) {
+	return nil, nil, nil
+}
+func (nullConsensus) CalculateBlock(block cctx.BlockInterface) error      { return nil }
+func (nullConsensus) ProcessConfirmBlock(block cctx.BlockInterface) error { return nil }
+func (nullConsensus) GetConsensusStatus() (cbase.ConsensusStatus, error) {
+	return nil, errors.New("null consensus")
 }
 
-// ConfirmForMiner is miner.confirmBlockForMiner without the consensus callbacks.
+// Miner returns the engine's real miner object (kernel/engines/xuperos/miner) bound to this
+// node's ledger and state and to the given producer key. Only the synchronous steps exported
+// under the verif build tag are used; the consensus-driven loop and the network are not started.
+func (n *Node) Miner(proposer *Key) *miner.Miner {
+	c := &common.ChainCtx{
+		BCName:    BCName,
+		Ledger:    n.Ledger,
+		State:     n.State,
+		Contract:  n.Contract,
+		Consensus: nullConsensus{},
+		Crypto:    Crypto(),
+		Acl:       n.Acl,
+		Address:   &xaddress.Address{Address: proposer.Address, PrivateKey: proposer.Priv, PublicKey: &proposer.Priv.PublicKey},
+	}
+	c.XLog = n.Log
+	c.Timer = timer.NewXTimer()
+	return miner.NewMiner(c)
+}
+
+func (n *Node) reqCtx() xctx.XContext {
+	return &xctx.BaseCtx{XLog: n.Log, Timer: timer.NewXTimer()}
+}
+
+// PackBlock assembles the next block exactly as the engine's miner does: it calls the real
+// miner.packBlock (timer transaction, pool prefix under the size limit in the order the pool
+// yields it, award, FormatMinerBlock) through the verif export shim. ts is the block's
+// timestamp in nanoseconds.
+func (n *Node) PackBlock(proposer *Key, ts int64) (*pb.InternalBlock, error) {
+	height := n.Ledger.GetMeta().TrunkHeight + 1
+	return n.Miner(proposer).VerifPackBlock(n.reqCtx(), height, time.Unix(0, ts), nil)
+}
+
+// ConfirmForMiner is the real miner.confirmBlockForMiner (ledger confirm, PlayForMiner) under
+// the null consensus.
 func (n *Node) ConfirmForMiner(b *pb.InternalBlock) error {
-	st := n.Ledger.ConfirmBlock(b, false)
-	if !st.Succ {
-		return fmt.Errorf("ledger confirm block error: %v", st.Error)
-	}
-	if st.Orphan {
-		return nil
-	}
-	return n.State.PlayForMiner(b.Blockid)
+	return n.Miner(K(0)).VerifConfirmBlockForMiner(n.reqCtx(), b)
 }
